@@ -306,6 +306,31 @@ var c19Near = []string{"res/", "res/icons/app.png", "res/drawabl", "res/messages
 	"CLASSES.DEX", "Classes.dex", "RESOURCES.ARSC", "Resources.arsc", "RES/DRAWABLE/icon.png", "Res/drawable/x.png", "res/Drawable/x.png", "WORD/document.xml", "PPT/slides/slide1.xml", "Ppt/x", "Xl/x", "MIMETYPE",
 	"meta-inf/com/android/build/gradle/app-metadata.properties", "[content_types].xml", "[CONTENT_TYPES].XML"}
 
+// c19LengthGroups builds random packages and groups them by total length (up to 8 per
+// length): members of a group can follow each other in one buffer at the same address
+// with the same length.
+func c19LengthGroups(r *rand.Rand, max int) map[int][][]byte {
+	groups := map[int][][]byte{}
+	pool := []string{"word/document.xml", "word/a.xml", "xl/workbook.xml", "xl/s.xml", "ppt/presentation.xml", "docs/readme.txt", "documents/r1.txt", "ward/a1.xml", "docProps/app.xml", "docProps/core.xml", "_rels/.rels", "customXml/item1.xml", "a", "bb", "ccc", "dddd/eeee.txt", "META-INF/MANIFEST.MF", "classes.dex", "x/y/z.bin"}
+	for i := 0; i < 6000; i++ {
+		var es []c19Entry
+		if r.Intn(4) != 0 {
+			es = append(es, c19Entry{Name: "[Content_Types].xml", Mode: r.Intn(3), Body: []byte("<Types/>")})
+		}
+		for k := 1 + r.Intn(4); k > 0; k-- {
+			es = append(es, c19Entry{Name: pool[r.Intn(len(pool))], Mode: r.Intn(3), Body: []byte("<x/>")[:r.Intn(5)]})
+		}
+		d, err := c19Build(es)
+		if err != nil || len(d) > max || bytes.Count(d, []byte("PK\x03\x04")) != len(es) {
+			continue
+		}
+		if len(groups[len(d)]) < 8 {
+			groups[len(d)] = append(groups[len(d)], d)
+		}
+	}
+	return groups
+}
+
 func c19Body(r *rand.Rand, aliasing bool, name string) []byte {
 	if aliasing {
 		// body begins with what would complete a marker started by the name
@@ -384,24 +409,7 @@ func c19Special(c *fw.Ctx) {
 	// grouped by total length; each group is detected one after the other in ONE
 	// buffer (same &buf[0], same len) and compared with detection in a fresh slice
 	buf := make([]byte, 1<<16)
-	groups := map[int][][]byte{}
-	pool := []string{"word/document.xml", "word/a.xml", "xl/workbook.xml", "xl/s.xml", "ppt/presentation.xml", "docs/readme.txt", "documents/r1.txt", "ward/a1.xml", "docProps/app.xml", "docProps/core.xml", "_rels/.rels", "customXml/item1.xml", "a", "bb", "ccc", "dddd/eeee.txt", "META-INF/MANIFEST.MF", "classes.dex", "x/y/z.bin"}
-	for i := 0; i < 6000; i++ {
-		var es []c19Entry
-		if r.Intn(4) != 0 {
-			es = append(es, c19Entry{Name: "[Content_Types].xml", Mode: r.Intn(3), Body: []byte("<Types/>")})
-		}
-		for k := 1 + r.Intn(4); k > 0; k-- {
-			es = append(es, c19Entry{Name: pool[r.Intn(len(pool))], Mode: r.Intn(3), Body: []byte("<x/>")[:r.Intn(5)]})
-		}
-		d, err := c19Build(es)
-		if err != nil || len(d) > len(buf) || bytes.Count(d, []byte("PK\x03\x04")) != len(es) {
-			continue
-		}
-		if len(groups[len(d)]) < 8 {
-			groups[len(d)] = append(groups[len(d)], d)
-		}
-	}
+	groups := c19LengthGroups(r, len(buf))
 	for n, g := range groups {
 		if len(g) < 2 {
 			continue
